@@ -68,7 +68,7 @@ def main():
                     verdicts[pid]["what"] = v.get("what") or (r.get("no_longer_checks") or [None])[0]
                 print(pid, json.dumps(verdicts[pid])[:500])
         finally:
-            sh("git -C /repo checkout -- .")
+            sh("git -C /repo apply -R %s/patch.diff" % dst); sh("git -C /repo checkout -- .")
             sh("/venv/bin/python harness/gen_tables.py", cwd=V, env={"PYTHONPATH": "/repo"})
             # the evidence files must describe the unchanged tree: regenerate them
             for pid in pids:
